@@ -40,30 +40,35 @@ def AnnOkHere {F : FloatOps} (ann : Ann F) (s : Index F) (q : List F.F32) (k : N
     annOk (g.map (·.2)) (prepare F s.cfg.metric q) (searchK s k) (searchEf s ef)
       (ann (g.map (·.2)) (prepare F s.cfg.metric q) (searchK s k) (searchEf s ef)) = true
 
-/-- no more tombstoned entries in the graph than tombstones (true whenever identifiers are distinct). -/
-def DeadBounded {F : FloatOps} (s : Index F) : Prop :=
-  ∀ g, s.inner = some g → (g.filter (fun e => isTomb s e.1)).length ≤ s.tombs.length
-
 /-- The property for one search: returned identifiers are live, there are at most `k`, and when the
     graph fits in the (widened) search breadth there are exactly `min k |live|`. -/
 def SearchValid {F : FloatOps} (ann : Ann F) (s : Index F) (q : List F.F32) (k : Nat) (ef : Option Nat) : Prop :=
   (∀ p ∈ search ann s q k ef, (liveOf s p.1).isSome = true) ∧
   (search ann s q k ef).length ≤ k ∧
-  (DeadBounded s → (∀ g, s.inner = some g → g.length ≤ searchEf s ef) →
+  ((∀ g, s.inner = some g → g.length ≤ searchEf s ef) →
     (search ann s q k ef).length = min k (active s).length)
 
 /-- C24 for every float model, every `ann`, every configuration, every history of inserts / batches /
-    deletes / rebuilds / save-load cycles from the empty index, every query. -/
+    deletes / rebuilds / save-load cycles from the empty index (each `rebuild` being given distinct
+    identifiers — its contract), every query. -/
 def C24_statement : Prop :=
   ∀ (F : FloatOps) (ann : Ann F) (cfg : Cfg) (ops : List (Op F)) (q : List F.F32) (k : Nat) (ef : Option Nat),
+    DistinctRebuilds ops →
     AnnOkHere ann (runOps { cfg := cfg } ops) q k ef → SearchValid ann (runOps { cfg := cfg } ops) q k ef
+
+/-- after every such history the graph's identifiers are distinct, hence it holds no more
+    tombstoned entries than there are tombstones (what the over-fetch of `search` relies on). -/
+theorem C24_dead_bounded {F : FloatOps} (cfg : Cfg) (ops : List (Op F)) (hd : DistinctRebuilds ops) :
+    ∀ g, (runOps ({ cfg := cfg } : Index F) ops).inner = some g →
+      (g.filter (fun e => isTomb (runOps ({ cfg := cfg } : Index F) ops) e.1)).length ≤ (runOps ({ cfg := cfg } : Index F) ops).tombs.length :=
+  deadBounded_of_idsNodup _ (idsNodup_run ops _ ⟨by simp, by intro g hg; simp at hg⟩ hd)
 
 /-- C24 holds of the repaired wrapper, for all histories. -/
 theorem C24_full : C24_statement := by
-  intro F ann cfg ops q k ef hann
+  intro F ann cfg ops q k ef hdist hann
   have hG := C24_graph_invariant (F := F) cfg ops
   exact ⟨search_ids_live ann _ hG q k ef, search_length_le ann _ q k ef,
-         fun hd hn => search_length_complete ann _ hG q k ef hann hd hn⟩
+         fun hn => search_length_complete ann _ hG q k ef hann (C24_dead_bounded cfg ops hdist) hn⟩
 
 /-- the former counterexample (four points, `delete 0` below the compaction threshold, search at
     point 0): the deleted identifier is no longer returned, the nearest live point is. -/
